@@ -131,6 +131,11 @@ def simulation(args_dict):
                 remove_empty=data.get('remove_empty', False),
             )
 
+        # The CLI-parameter `cell_number` corresponds to `cell_numbers`.
+        gopts = cfg['simulation_options'].get('gridding_opts', {})
+        if 'cell_number' in gopts:
+            gopts['cell_numbers'] = gopts.pop('cell_number')
+
         # Switch-off tqdm if verbosity is zero.
         if verb < 1:
             cfg['simulation_options']['tqdm_opts'] = False
